@@ -63,6 +63,7 @@ htp_cfg_t *cfg_from_spec(const char *spec0) {
         else if (!strcmp(k, "layers")) htp_config_set_response_decompression_layer_limit(cfg, (int) v);
         else if (!strcmp(k, "lzmalayers")) htp_config_set_lzma_layers(cfg, (int) v);
         else if (!strcmp(k, "bomb")) htp_config_set_compression_bomb_limit(cfg, v);
+        else if (!strcmp(k, "ztime")) htp_config_set_compression_time_limit(cfg, v);
         else if (!strcmp(k, "spaceuri")) htp_config_set_allow_space_uri(cfg, (int) v);
         else if (!strcmp(k, "lws")) htp_config_set_requestline_leading_whitespace_unwanted(cfg, HTP_DECODER_DEFAULTS, v);
         else if (!strcmp(k, "log")) htp_config_set_log_level(cfg, (enum htp_log_level_t) v);
